@@ -347,6 +347,14 @@ func (p *Prog) DeepOrigins(v ssa.Value) []Origin {
 					}
 					continue
 				}
+				// a comdex helper that only computes (no store, bank or interface access): its result
+				// comes from its arguments; follow the returned value with the parameters bound
+				if h := o.Call.Call.StaticCallee(); p.throughPureOn && h != nil && depth < 8 && pureFn(h, 0, map[*ssa.Function]bool{}) {
+					if sub, ok := p.throughPure(h, o, depth); ok {
+						out = append(out, sub...)
+						continue
+					}
+				}
 				out = append(out, o)
 			case "binop":
 				b := o.Val.(*ssa.BinOp)
@@ -439,6 +447,44 @@ func (p *Prog) UpStrings(o Origin, depth int) []string {
 		return []string{o.String()}
 	}
 	return out
+}
+
+// throughPure: origins of result o.Index of the pure helper h called at o.Call, expressed in
+// the caller: parameter origins are replaced by the deep origins of the arguments.
+func (p *Prog) throughPure(h *ssa.Function, o Origin, depth int) ([]Origin, bool) {
+	if p.pureDepth > 2 {
+		return nil, false
+	}
+	p.pureDepth++
+	defer func() { p.pureDepth-- }()
+	var out []Origin
+	args := o.Call.Call.Args
+	for _, rt := range returns(h) {
+		if o.Index >= len(rt.Results) {
+			return nil, false
+		}
+		for _, ro := range p.DeepOrigins(rt.Results[o.Index]) {
+			if pr, isP := ro.Val.(*ssa.Parameter); isP && ro.Kind == "param" && pr.Parent() == h {
+				idx := paramIndex(pr)
+				if idx < 0 || idx >= len(args) {
+					return nil, false
+				}
+				for _, ao := range p.DeepOrigins(args[idx]) {
+					a2 := ao
+					a2.Path = append(append(append([]string{}, ao.Path...), ro.Path...), o.Path...)
+					out = append(out, a2)
+				}
+				continue
+			}
+			r2 := ro
+			r2.Path = append(append([]string{}, ro.Path...), o.Path...)
+			out = append(out, r2)
+		}
+	}
+	if len(out) == 0 {
+		return nil, false
+	}
+	return out, true
 }
 
 // OriginStrings gives the sorted distinct access paths of the deep origins of v.
